@@ -203,6 +203,16 @@ def gen_cases(run):
               '1.5S', 'P1,5D', 'PT1.5H30M', 'PT1H30.5M', 'PT1.5S', '9' * 25, '0' * 30 + '1',
               '1.0000000000000000000000001']:
         cases.append(dict(kind='convert', s=s))
+    # a fraction in a larger unit, the smaller unit being zero, nonzero or written without a unit
+    units = 'dhms'
+    for i in range(3):
+        for j in range(i + 1, 4):
+            for z in ('0', '00', '30'):
+                for mark in '.,':
+                    cases.append(dict(kind='convert', s=f"1{mark}5{units[i]}{z}{units[j] if j < 3 or z != '00' else ''}"))
+    for iso in ('P1.5DT0S', 'P1,5DT0H', 'PT1.5H0M', 'PT1.5H0S', 'PT2,5M0S', 'P0.5DT0H0M0S', 'PT1.5H00M', 'P1.5DT30M',
+                'PT0.5H0.5M', 'PT1.5M0.0S'):
+        cases.append(dict(kind='convert', s=iso))
     # time_period
     for a in (['none'], ['other'], ['int', 0], ['int', -5], ['int', 7], ['bool', 1], ['bool', 0],
               ['int', 2 ** 60 + 1], ['float', '-1/2'], ['float', '5/2'], ['float', '0/1'],
